@@ -52,7 +52,7 @@ structure Key where
   group : Str
   bench : Str
   unit : Str
-  deriving DecidableEq, BEq
+  deriving DecidableEq
 
 structure Metrics where
   unit : Str := []
@@ -61,7 +61,7 @@ structure Metrics where
   min : Bits := 0
   mean : Bits := 0
   max : Bits := 0
-  deriving DecidableEq, BEq
+  deriving DecidableEq
 
 inductive Order where
   | byName
@@ -364,16 +364,19 @@ def geoMeansOf (c : Coll) (unit cfg : Str) : List Bits :=
 
 def geoRowName : Str := str "[Geo mean]"
 
+/-- one iteration of the config loop of addGeomean -/
+def geoStep (G : GeoFn) (c : Coll) (unit : Str) (acc : GeoAcc) (cfg : Str) : GeoAcc :=
+  let means := geoMeansOf c unit cfg
+  let acc := { acc with maxCount := if means.length > acc.maxCount then means.length else acc.maxCount }
+  if means.isEmpty then { acc with metrics := acc.metrics ++ [({ } : Metrics)], delta := false }
+  else
+    let g := G means
+    { acc with geomeans := acc.geomeans ++ [g],
+               scaler := (match acc.scaler with | some s => some s | none => some (g, unit)),
+               metrics := acc.metrics ++ [{ unit := unit, mean := g }] }
+
 def addGeomean (G : GeoFn) (c : Coll) (unit : Str) (delta : Bool) : Option Row :=
-  let acc := c.configs.foldl (fun (acc : GeoAcc) cfg =>
-    let means := geoMeansOf c unit cfg
-    let acc := { acc with maxCount := if means.length > acc.maxCount then means.length else acc.maxCount }
-    if means.isEmpty then { acc with metrics := acc.metrics ++ [({ } : Metrics)], delta := false }
-    else
-      let g := G means
-      { acc with geomeans := acc.geomeans ++ [g],
-                 scaler := (match acc.scaler with | some s => some s | none => some (g, unit)),
-                 metrics := acc.metrics ++ [{ unit := unit, mean := g }] }) { delta := delta }
+  let acc := c.configs.foldl (geoStep G c unit) { delta := delta }
   if acc.maxCount ≤ 1 then none
   else
     let row : Row := { bench := geoRowName, metrics := acc.metrics, scaler := acc.scaler }
